@@ -59,11 +59,10 @@ var repriceTable = map[string]repriceClass{
 	"keeper.Keeper.SlashValidator | AllianceAsset.TotalValidatorShares":                 {"raising", "the asset's share total falls while its token total stays: every validator share of the asset on OTHER validators is worth more tokens, and their delegations are not settled"},
 	"keeper.Keeper.SlashValidator | AllianceValidatorInfo.ValidatorShares":              {"scaled", "decided by C06.scale (each denom's shares become amount - amount x fraction): the slashed validator's own share of the asset falls by the fraction; together with the lower share total its positions are worth (1-f)g of their value, g < 1/(1-f)"},
 	"keeper.Keeper.slashRedelegations | AllianceValidatorInfo.TotalDelegatorShares":     {"raising", "the destination validator's delegator-share total falls by the shares taken from the redelegated position while its validator shares stay: every OTHER position on the destination is worth more tokens, and those delegations are not settled"},
-	"keeper.Keeper.slashRedelegations | Delegation.Shares":                              {"lowering", "the redelegated position loses shares after being settled by its own claim (C08.claimguard / C13.settle.leave)"},
 }
 
 func init() {
-	register(&Rule{ID: "C12.reprice", Props: []string{"C12", "C05", "C13"}, Floor: 8,
+	register(&Rule{ID: "C12.reprice", Props: []string{"C12", "C05"}, Floor: 8,
 		Doc: "every write that re-prices positions is neutral, lowering or on an empty asset; value-raising writes inflate accrued entitlements",
 		Run: func(e *Engine, r *RuleRun) {
 			seen := map[string]bool{}
@@ -128,5 +127,44 @@ func init() {
 				}
 			}
 			r.Check(len(keys) >= 8, "-", "price-field writers", fmt.Sprintf("%d (function, field) writers of the five price fields", len(keys)), fmt.Sprintf("only %d writers found", len(keys)))
+		}})
+
+	// C13 asks for more than solvency: "a claim pays the accumulated entitlement", "not retroactive".  Any re-pricing
+	// write that is not neutral (or on an empty asset) changes what unsettled positions will be paid for rewards that
+	// were already received - upwards (raising) or downwards (lowering, scaled).
+	register(&Rule{ID: "C13.reprice", Props: []string{"C13"}, Floor: 8,
+		Doc: "accrued, unsettled entitlements are not re-priced: every write of a price field is neutral or on an empty asset",
+		Run: func(e *Engine, r *RuleRun) {
+			seen := map[string]bool{}
+			n := 0
+			for _, fn := range e.SMFuncs() {
+				for _, a := range e.DirectAtoms(fn) {
+					if a.Kind != "fieldwrite" || !priceFields[a.Name] {
+						continue
+					}
+					st := a.Instr.(*ssa.Store)
+					if isInitStore(e.FA(fn), st) {
+						continue
+					}
+					fk := FuncKey(fn)
+					k := fk + " | " + a.Name
+					if seen[k] {
+						continue
+					}
+					seen[k] = true
+					n++
+					c, ok := repriceTable[k]
+					construct := "reprice:" + a.Name
+					switch {
+					case !ok:
+						r.Bad(fk, construct, "unclassified write of a price field ("+a.Name+")", nil, r.P(st))
+					case c.class == "neutral" || c.class == "empty":
+						r.OK(fk, construct, c.class+": "+c.why, r.P(st))
+					default:
+						r.Bad(fk, construct, "this write changes the token value of positions that were not settled first ("+c.class+": "+c.why+"): rewards that were already received are paid at the new value - more than accrued (raising) or less (lowering / scaled, the difference stays in the pool unclaimable), and what a delegator is paid depends on whether he claimed before or after this write", nil, r.P(st))
+					}
+				}
+			}
+			r.Check(n >= 8, "-", "price-field writers", fmt.Sprintf("%d writers classified", n), fmt.Sprintf("only %d writers found", n))
 		}})
 }
